@@ -44,10 +44,19 @@ type node struct {
 // flit makes a floating-point literal from its decimal text (e.g. "0.1", "9007199254740992.0").
 func flit(text string) *node {
 	q, ok := new(big.Rat).SetString(text)
-	if !ok || !strings.Contains(text, ".") {
+	if !ok || !strings.ContainsAny(text, ".e") {
 		panic("bad float literal " + text)
 	}
 	return &node{tag: "F", op: text, q: q}
+}
+
+// ilit makes an imaginary literal from the decimal text of its coefficient ("4", "2.5").
+func ilit(text string) *node {
+	q, ok := new(big.Rat).SetString(text)
+	if !ok {
+		panic("bad imaginary literal " + text)
+	}
+	return &node{tag: "I", op: text + "i", q: q}
 }
 
 // decimalText writes q as a decimal literal when its denominator divides a power of ten.
@@ -93,8 +102,10 @@ func (n *node) tokens() string {
 	switch n.tag {
 	case "L", "R":
 		return n.tag + " " + n.n.String()
-	case "F":
-		return "F " + n.q.Num().String() + " " + n.q.Denom().String()
+	case "F", "I":
+		return n.tag + " " + n.q.Num().String() + " " + n.q.Denom().String()
+	case "RE", "IM":
+		return n.tag + " " + n.a.tokens()
 	case "C", "U":
 		return n.tag + " " + n.op + " " + n.a.tokens()
 	case "B", "Q":
@@ -109,8 +120,14 @@ func (n *node) src() string {
 		return n.n.String()
 	case "R":
 		return fmt.Sprintf("'\\U%08x'", n.n.Int64())
-	case "F":
+	case "F", "I":
 		return n.op
+	case "RE":
+		return "real(" + n.a.src() + ")"
+	case "IM":
+		return "imag(" + n.a.src() + ")"
+	case "CX":
+		return "complex(" + n.a.src() + ", " + n.b.src() + ")"
 	case "C":
 		return n.op + "(" + n.a.src() + ")"
 	case "U":
@@ -126,7 +143,7 @@ func (n *node) src() string {
 // staticType: "untyped", a kind name or "bool", decided by the syntax alone.
 func (n *node) staticType() string {
 	switch n.tag {
-	case "L", "R", "F":
+	case "L", "R", "F", "I", "RE", "IM", "CX":
 		return "untyped"
 	case "C":
 		return n.op
@@ -184,7 +201,10 @@ func parseTokens(toks []string) (*node, []string, error) {
 			return &node{tag: "R", n: v}, toks[2:], nil
 		}
 		return lit(v), toks[2:], nil
-	case "F":
+	case "RE", "IM":
+		a, rest, err := parseTokens(toks[1:])
+		return &node{tag: t, a: a}, rest, err
+	case "F", "I":
 		if len(toks) < 3 {
 			return nil, nil, errors.New("truncated float literal")
 		}
@@ -195,6 +215,12 @@ func parseTokens(toks []string) (*node, []string, error) {
 		text, ok := decimalText(q)
 		if !ok {
 			return nil, nil, errors.New("float literal is not a decimal")
+		}
+		if t == "I" {
+			if q.IsInt() {
+				text = q.Num().String()
+			}
+			return ilit(text), toks[3:], nil
 		}
 		return flit(text), toks[3:], nil
 	case "C", "U":
@@ -213,7 +239,7 @@ func parseTokens(toks []string) (*node, []string, error) {
 		}
 		b, rest, err := parseTokens(rest)
 		return &node{tag: t, op: toks[1], a: a, b: b}, rest, err
-	case "SHL", "SHR":
+	case "SHL", "SHR", "CX":
 		a, rest, err := parseTokens(toks[1:])
 		if err != nil {
 			return nil, nil, err
@@ -238,20 +264,27 @@ const limbs = 16 // 1024 bits: more than any accepted untyped integer constant (
 // numeric constant as its sign and the 64-bit limbs (two's complement) of c*den, where den is the
 // denominator of the reference's value (1 for integers): an untyped floating-point constant that is
 // an integer can be shifted, which gives its exact digits.
-func program(n *node, den *big.Int) string {
+func program(n *node, sc scale) string {
 	var b strings.Builder
 	b.WriteString("package main\n\nconst c = " + n.src() + "\n\nfunc main() {\n")
-	if n.staticType() == "untyped" {
-		scaled := "c"
+	part := func(expr string, den *big.Int) {
+		scaled := expr
 		if den != nil && den.Cmp(big.NewInt(1)) != 0 {
-			scaled = "(c * " + den.String() + ")" // an integer when c is the reference's value num/den
+			scaled = "(" + expr + " * " + den.String() + ")" // an integer when the part is the reference's num/den
 		}
-		b.WriteString("\tprintln(c < 0)\n")
+		b.WriteString("\tprintln(" + expr + " < 0)\n")
 		for i := 0; i < limbs; i++ {
 			fmt.Fprintf(&b, "\tprintln(uint64((%s >> %d) & 0xFFFFFFFFFFFFFFFF))\n", scaled, 64*i)
 		}
-	} else {
+	}
+	switch {
+	case n.staticType() != "untyped":
 		b.WriteString("\tprintln(c)\n")
+	case sc.cplx:
+		part("real(c)", sc.re)
+		part("imag(c)", sc.im)
+	default:
+		part("c", sc.re)
 	}
 	b.WriteString("}\n")
 	return b.String()
@@ -272,7 +305,8 @@ var errClasses = []struct {
 	{regexp.MustCompile(`negative shift count`), "neg-shift"},
 	{regexp.MustCompile(`shift count too large`), "shift-too-large"},
 	{regexp.MustCompile(`mismatched types`), "mismatched"},
-	{regexp.MustCompile(`truncated to integer`), "truncated"},
+	{regexp.MustCompile(`truncated to (integer|real)`), "truncated"},
+	{regexp.MustCompile(`invalid argument .* for (real|imag)|expected floating-point|arguments have type`), "invalid-op"},
 	{regexp.MustCompile(`floating-point % operation|operator \S+ not defined on|invalid operation: \^ `), "invalid-op"},
 	{regexp.MustCompile(`constant (addition|subtraction|multiplication|shift|bitwise [A-Za-z ]+) overflow`), "untyped-overflow"},
 	{regexp.MustCompile(`constant \S+ overflows `), "overflow"},
@@ -287,14 +321,14 @@ func modelClass(s string) string {
 	return s
 }
 
-func runScriggo(n *node, den *big.Int) (o outcome) {
+func runScriggo(n *node, sc scale) (o outcome) {
 	defer func() {
 		if r := recover(); r != nil {
 			o = outcome{canon: "panic", detail: fmt.Sprint(r)}
 		}
 	}()
 	untyped := n.staticType() == "untyped"
-	prog, err := scriggo.Build(scriggo.Files{"main.go": []byte(program(n, den))}, nil)
+	prog, err := scriggo.Build(scriggo.Files{"main.go": []byte(program(n, sc))}, nil)
 	if err != nil {
 		var be *scriggo.BuildError
 		if !errors.As(err, &be) {
@@ -302,9 +336,9 @@ func runScriggo(n *node, den *big.Int) (o outcome) {
 		}
 		msg := err.Error()
 		if be.Position().Line > 3 {
-			// the declaration was accepted; the statements that print c*den were not: c is not the
-			// reference's value (c*den is not an integer)
-			return outcome{accepted: true, canon: "ok num untyped not-a-multiple-of-1/" + den.String(), detail: msg}
+			// the declaration was accepted; the statements that print the scaled parts were not: c is
+			// not the value (or not of the kind) the scale was made for
+			return outcome{accepted: true, canon: "ok num untyped not-printable-at-scale-" + sc.key(), detail: msg}
 		}
 		for _, c := range errClasses {
 			if c.re.MatchString(msg) {
@@ -331,48 +365,80 @@ func runScriggo(n *node, den *big.Int) (o outcome) {
 		}
 		return outcome{accepted: true, canon: fmt.Sprintf("ok num %T %v/1", vals[0], vals[0])}
 	}
-	if len(vals) != limbs+1 {
+	read := func(vals []any, den *big.Int) (*big.Rat, bool) {
+		neg, ok := vals[0].(bool)
+		if !ok {
+			return nil, false
+		}
+		v := new(big.Int)
+		for i := limbs; i >= 1; i-- {
+			l, ok := vals[i].(uint64)
+			if !ok {
+				return nil, false
+			}
+			v.Lsh(v, 64)
+			v.Or(v, new(big.Int).SetUint64(l))
+		}
+		if neg {
+			v.Sub(v, new(big.Int).Lsh(big.NewInt(1), 64*limbs))
+		}
+		return new(big.Rat).SetFrac(v, den), true
+	}
+	want := limbs + 1
+	if sc.cplx {
+		want *= 2
+	}
+	if len(vals) != want {
 		return outcome{canon: "run-error", detail: fmt.Sprint("printed ", vals)}
 	}
-	neg, ok := vals[0].(bool)
+	re, ok := read(vals[:limbs+1], sc.re)
 	if !ok {
 		return outcome{canon: "run-error", detail: fmt.Sprint("printed ", vals)}
 	}
-	v := new(big.Int)
-	for i := limbs; i >= 1; i-- {
-		l, ok := vals[i].(uint64)
+	canon := "ok num untyped " + ratString(re)
+	if sc.cplx {
+		im, ok := read(vals[limbs+1:], sc.im)
 		if !ok {
 			return outcome{canon: "run-error", detail: fmt.Sprint("printed ", vals)}
 		}
-		v.Lsh(v, 64)
-		v.Or(v, new(big.Int).SetUint64(l))
+		canon += " " + ratString(im)
 	}
-	if neg {
-		v.Sub(v, new(big.Int).Lsh(big.NewInt(1), 64*limbs))
-	}
-	q := new(big.Rat).SetInt(v)
-	if den != nil && den.Sign() > 0 {
-		q.SetFrac(v, den)
-	}
-	return outcome{accepted: true, canon: "ok num untyped " + ratString(q)}
+	return outcome{accepted: true, canon: canon}
 }
 
 func ratString(q *big.Rat) string { return q.Num().String() + "/" + q.Denom().String() }
 
 // valueKey drops what cannot be observed on the Scriggo side: the kind of an untyped constant.
 func valueKey(canon string) string {
-	return strings.NewReplacer("untyped-rune", "untyped", "untyped-float", "untyped").Replace(canon)
+	return strings.NewReplacer("untyped-rune", "untyped", "untyped-float", "untyped", "untyped-complex", "untyped").Replace(canon)
 }
 
-// denOf gives the denominator of an accepted numeric outcome.
-func denOf(o outcome) *big.Int {
+// scale says how an untyped constant is printed exactly: whether both parts are printed (complex) and
+// by which denominators they are multiplied to give integers.
+type scale struct {
+	cplx   bool
+	re, im *big.Int
+}
+
+func (s scale) key() string { return fmt.Sprint(s.cplx, s.re, s.im) }
+
+// scaleOf reads the kind and the denominators off an accepted numeric outcome.
+func scaleOf(o outcome) scale {
+	sc := scale{re: big.NewInt(1), im: big.NewInt(1)}
 	f := strings.Fields(o.canon)
-	if o.accepted && len(f) == 4 && f[1] == "num" {
-		if q, ok := new(big.Rat).SetString(f[3]); ok {
-			return new(big.Int).Set(q.Denom())
+	if !o.accepted || len(f) < 4 || f[1] != "num" {
+		return sc
+	}
+	if q, ok := new(big.Rat).SetString(f[3]); ok {
+		sc.re = new(big.Int).Set(q.Denom())
+	}
+	if len(f) >= 5 {
+		if q, ok := new(big.Rat).SetString(f[4]); ok {
+			sc.cplx = true
+			sc.im = new(big.Int).Set(q.Denom())
 		}
 	}
-	return big.NewInt(1)
+	return sc
 }
 
 // runGoTypes is the reference: go/types type-checks the same program, go/constant holds the value.
@@ -406,16 +472,33 @@ func runGoTypes(src string) outcome {
 		t = "untyped-rune"
 	case "untyped float":
 		t = "untyped-float"
+	case "untyped complex":
+		t = "untyped-complex"
 	}
-	num, den := constant.Num(c.Val()), constant.Denom(c.Val())
-	if num.Kind() != constant.Int || den.Kind() != constant.Int {
+	frac := func(v constant.Value) (string, bool) {
+		num, den := constant.Num(v), constant.Denom(v)
+		if num.Kind() != constant.Int || den.Kind() != constant.Int {
+			return "", false
+		}
+		q, ok := new(big.Rat).SetString(num.ExactString() + "/" + den.ExactString())
+		if !ok {
+			return "", false
+		}
+		return ratString(q), true
+	}
+	re, ok := frac(constant.Real(c.Val()))
+	if !ok {
 		return outcome{canon: "unknown", detail: "go/constant does not hold this value as a fraction: " + c.Val().String()}
 	}
-	q, ok := new(big.Rat).SetString(num.ExactString() + "/" + den.ExactString())
-	if !ok {
-		return outcome{canon: "unknown", detail: "cannot read " + c.Val().ExactString()}
+	canon := "ok num " + t + " " + re
+	if t == "untyped-complex" {
+		im, ok := frac(constant.Imag(c.Val()))
+		if !ok {
+			return outcome{canon: "unknown", detail: "go/constant does not hold this value as a fraction: " + c.Val().String()}
+		}
+		canon += " " + im
 	}
-	return outcome{accepted: true, canon: "ok num " + t + " " + ratString(q)}
+	return outcome{accepted: true, canon: canon}
 }
 
 // ---------------------------------------------------------------------------------------------
@@ -905,7 +988,7 @@ func clause(n *node) (cl string, impl, ref outcome) {
 // may round — the class of the finding recorded by C03, not repeated here.
 func clauseW(n *node) (cl string, impl, ref outcome, unjudged string) {
 	ref, g := reference(n)
-	impl = runScriggo(n, denOf(ref))
+	impl = runScriggo(n, scaleOf(ref))
 	switch {
 	case impl.canon == "panic":
 		return "build-panics", impl, ref, ""
@@ -1382,11 +1465,11 @@ func treeCase(c *hx.Ctx, n *node, model map[string]string, source string) {
 	// correspondence: the model of Scriggo's strategy against Scriggo
 	ms := model["C02 scriggo "+toks]
 	mcanon := ms
-	if f := strings.Fields(ms); len(f) == 5 && f[1] == "num" {
-		mcanon = strings.Join(f[:4], " ") // without the implementation
+	if f := strings.Fields(ms); len(f) >= 5 && f[1] == "num" {
+		mcanon = strings.Join(f[:len(f)-1], " ") // without the implementation
 	}
 	mcanon = valueKey(modelClass(mcanon))
-	if md := denOf(outcome{accepted: strings.HasPrefix(mcanon, "ok num"), canon: mcanon}); md.Cmp(denOf(ref)) != 0 {
+	if md := scaleOf(outcome{accepted: strings.HasPrefix(mcanon, "ok num"), canon: mcanon}); md.key() != scaleOf(ref).key() {
 		// the reference gives no value (or another one): print the constant scaled by the model's denominator
 		impl = runScriggo(n, md)
 	}
@@ -1399,7 +1482,7 @@ func treeCase(c *hx.Ctx, n *node, model map[string]string, source string) {
 		res.Hist("model:outside-the-exact-fragment")
 	case mcanon != icanon:
 		res.AddBreak(proto.Break{Kind: "correspondence", Name: "evalScriggo-vs-scriggo.Build", Case: "C02 scriggo " + toks,
-			Human: program(n, denOf(ref)), Impl: impl.String(), Model: ms})
+			Human: program(n, scaleOf(ref)), Impl: impl.String(), Model: ms})
 	default:
 		res.Hist("model:agrees")
 	}
@@ -1579,7 +1662,7 @@ func replay(c *hx.Ctx) error {
 				return fmt.Errorf("replay: cannot parse %q", line)
 			}
 			cl, impl, ref := clause(n)
-			fmt.Printf("replay %s\n%s scriggo : %s\n go/types: %s\n model   : %s\n clause  : %q\n", line, program(n, denOf(ref)), impl, ref, m, cl)
+			fmt.Printf("replay %s\n%s scriggo : %s\n go/types: %s\n model   : %s\n clause  : %q\n", line, program(n, scaleOf(ref)), impl, ref, m, cl)
 			c.Res.Count(line, true)
 			if cl != "" {
 				c.Res.AddBreak(proto.Break{Kind: "property", Name: cl, Case: line, Human: simpleProgram(n), Impl: impl.String(), Model: "go/types: " + ref.String()})
